@@ -419,6 +419,39 @@ def solid_expansion_conserves_mass_and_scales_dimensions(ctx, shape, hollow):
                             scale=abs(v * f1) + LO)
 
 
+@harness("C03", bounds="one instance per 2-D shape class (x solid/hollow, the hollow-wire Helix included); "
+                       + SOLID_BOUNDS + "; laws with non-zero expansion between the temperatures used; component "
+                       "input at Tinput, built hot at T0 != Tinput, then taken to T1; a second component of the same "
+                       "input dimensions that is AT its input temperature gives the as-input geometry", stubs=STUBS,
+         qtimeout_ms=20000, instances={"quick": variants()})
+def cold_area_is_the_as_input_area_whatever_the_temperature(ctx, shape, hollow):
+    Tin, T0, T1 = temps(ctx, ("Tin", "T0", "T1"))
+    law = install_solid_law(ctx, Tin, (T0, T1))
+    assume_expansion_defined(ctx, law, Tin, (T0, T1))
+    dims, known = draw_dims(ctx, shape, hollow)
+    mult = ctx.real("mult", 1.0, 500.0)
+    b, c = build(ctx, shape, SymSolid(), Tin, T0, dims, mult, known)
+    bref, ref = build(ctx, shape, SymSolid(), Tin, Tin, dims, mult, True)     # never leaves its input temperature
+    asInput = ref.getArea()
+    f0, f1 = factor(law, T0, Tin), factor(law, T1, Tin)
+    cold0, comp0, hot0 = c.getArea(cold=True), c.getComponentArea(cold=True), c.getArea()
+    atT1 = c.getArea(Tc=T1)
+    c.setTemperature(T1)
+    cold1, comp1, hot1 = c.getArea(cold=True), c.getComponentArea(cold=True), c.getArea()
+    want = asInput
+    if ctx.canary:
+        want = want * ITE(band(T1), 1.01, 1)
+    ctx.check_close("cold area at T0 = area of the as-input geometry", cold0, asInput, scale=asInput)
+    ctx.check_close("cold area at T1 = area of the as-input geometry (no dependence on the current temperature)",
+                    cold1, want, scale=asInput)
+    ctx.check_close("getComponentArea(cold=True) at T0 likewise", comp0, asInput, scale=asInput)
+    ctx.check_close("getComponentArea(cold=True) at T1 likewise", comp1, asInput, scale=asInput)
+    ctx.check_close("hot area at T0 = cold area x f(T0)^2", hot0, cold0 * f0 * f0, scale=asInput * f0 * f0)
+    ctx.check_close("hot area at T1 = cold area x f(T1)^2", hot1, cold1 * f1 * f1, scale=asInput * f1 * f1)
+    ctx.check_close("area asked for an explicit temperature = cold area x f(T)^2", atT1, cold0 * f1 * f1,
+                    scale=asInput * f1 * f1)
+
+
 @harness("C03", bounds="as above; two identical components, one taken Tinput -> T0 -> T1 -> ... -> T2 through "
                        "`steps` intermediate temperatures (1, 2; thorough 3), the other directly T0 -> T2",
          stubs=STUBS, qtimeout_ms=20000,
